@@ -15,6 +15,10 @@ pub mod c13;
 pub mod c14;
 pub mod c15;
 pub mod c16;
+pub mod c17;
+pub mod c18;
+pub mod c19;
+pub mod c20;
 
 use crate::engine::Ctx;
 use serde_json::Value;
@@ -31,4 +35,4 @@ macro_rules! table {
         pub const IDS: &[&str] = &[$($id),*];
     };
 }
-table!("C01" => c01, "C02" => c02, "C03" => c03, "C04" => c04, "C05" => c05, "C06" => c06, "C07" => c07, "C08" => c08, "C09" => c09, "C10" => c10, "C11" => c11, "C12" => c12, "C13" => c13, "C14" => c14, "C15" => c15, "C16" => c16);
+table!("C01" => c01, "C02" => c02, "C03" => c03, "C04" => c04, "C05" => c05, "C06" => c06, "C07" => c07, "C08" => c08, "C09" => c09, "C10" => c10, "C11" => c11, "C12" => c12, "C13" => c13, "C14" => c14, "C15" => c15, "C16" => c16, "C17" => c17, "C18" => c18, "C19" => c19, "C20" => c20);
